@@ -32,6 +32,15 @@ const (
 	goBin   = "go1.26.8"
 )
 
+// replaysSub: replay files of sensitivity self-tests (a deliberate change compiled in) are kept apart
+// from those found on /repo.
+var replaysSub = func() string {
+	if os.Getenv("DSIM_CANARY") != "" {
+		return filepath.Join("build", "replays-selftest")
+	}
+	return "replays"
+}()
+
 // verifDir is where the machinery lives: /verif, or the snapshot of it a background run works in
 // (the check script passes its own location in DSIM_VERIF_DIR).
 var verifDir = func() string {
@@ -262,8 +271,8 @@ func runWorker(binPath, scratch string, env map[string]string, timeout time.Dura
 		<-done
 		werr = fmt.Errorf("watchdog: worker exceeded %v", timeout)
 		if sb, err := os.ReadFile(sentinel); err == nil {
-			os.MkdirAll(filepath.Join(verifDir, "replays"), 0o755)
-			pf := filepath.Join(verifDir, "replays", fmt.Sprintf("hang-%d.json", time.Now().UnixNano()))
+			os.MkdirAll(filepath.Join(verifDir, replaysSub), 0o755)
+			pf := filepath.Join(verifDir, replaysSub, fmt.Sprintf("hang-%d.json", time.Now().UnixNano()))
 			os.WriteFile(pf, sb, 0o644)
 			werr = fmt.Errorf("%v (case in flight saved to %s)", werr, pf)
 		}
@@ -571,8 +580,8 @@ func check(prop, tier string) int {
 		for _, r := range all {
 			if r.Panic != "" {
 				if machinery == "" {
-					os.MkdirAll(filepath.Join(verifDir, "replays"), 0o755)
-					pf := filepath.Join(verifDir, "replays", fmt.Sprintf("%s-panic-%d.json", prop, r.Seed))
+					os.MkdirAll(filepath.Join(verifDir, replaysSub), 0o755)
+					pf := filepath.Join(verifDir, replaysSub, fmt.Sprintf("%s-panic-%d.json", prop, r.Seed))
 					b, _ := json.MarshalIndent(map[string]any{"scenario": r.Scenario, "panic": r.Panic}, "", " ")
 					os.WriteFile(pf, b, 0o644)
 					machinery = fmt.Sprintf("dsim: harness failure in run seed %d (not a violation; scenario saved to %s):\n%s", r.Seed, pf, lastLines(r.Panic, 30))
@@ -592,8 +601,8 @@ func check(prop, tier string) int {
 	}
 	for _, r := range all[:0] {
 		if r.Panic != "" {
-			os.MkdirAll(filepath.Join(verifDir, "replays"), 0o755)
-			pf := filepath.Join(verifDir, "replays", fmt.Sprintf("%s-panic-%d.json", prop, r.Seed))
+			os.MkdirAll(filepath.Join(verifDir, replaysSub), 0o755)
+			pf := filepath.Join(verifDir, replaysSub, fmt.Sprintf("%s-panic-%d.json", prop, r.Seed))
 			b, _ := json.MarshalIndent(map[string]any{"scenario": r.Scenario, "panic": r.Panic}, "", " ")
 			os.WriteFile(pf, b, 0o644)
 			fmt.Fprintf(os.Stderr, "dsim: harness failure in run seed %d (not a violation; scenario saved to %s):\n%s\n", r.Seed, pf, lastLines(r.Panic, 30))
@@ -709,8 +718,8 @@ func check(prop, tier string) int {
 				break
 			}
 			// keep for triage; machinery defect unless another run reproduces
-			os.MkdirAll(filepath.Join(verifDir, "replays"), 0o755)
-			pf := filepath.Join(verifDir, "replays", fmt.Sprintf("%s-nonrepro-%d.json", prop, c.r.Seed))
+			os.MkdirAll(filepath.Join(verifDir, replaysSub), 0o755)
+			pf := filepath.Join(verifDir, replaysSub, fmt.Sprintf("%s-nonrepro-%d.json", prop, c.r.Seed))
 			b, _ := json.MarshalIndent(map[string]any{"scenario": sc, "violation": c.v}, "", " ")
 			os.WriteFile(pf, b, 0o644)
 			fmt.Fprintf(os.Stderr, "dsim: violation of run seed %d did not reproduce on replay (saved %s); %d more violating run(s) to try\n", c.r.Seed, pf, len(cands)-ci-1)
@@ -720,8 +729,8 @@ func check(prop, tier string) int {
 			writeEvidence(prop, ev)
 			return 2
 		}
-		os.MkdirAll(filepath.Join(verifDir, "replays"), 0o755)
-		pf := filepath.Join(verifDir, "replays", fmt.Sprintf("%s-%d.json", prop, h.r.Seed))
+		os.MkdirAll(filepath.Join(verifDir, replaysSub), 0o755)
+		pf := filepath.Join(verifDir, replaysSub, fmt.Sprintf("%s-%d.json", prop, h.r.Seed))
 		b, _ := json.MarshalIndent(map[string]any{"property": prop, "scenario": final, "violation": fv, "tree": treeID(),
 			"replay_cmd": "cd /verif && ./check replay " + pf}, "", " ")
 		os.WriteFile(pf, b, 0o644)
@@ -823,9 +832,15 @@ func aggregate(prop, tier string, seed uint64, p propDef, all []*result, wall ti
 }
 
 func writeEvidence(prop string, ev map[string]any) {
-	os.MkdirAll(filepath.Join(verifDir, "evidence"), 0o755)
+	dir := filepath.Join(verifDir, "evidence")
+	if os.Getenv("DSIM_CANARY") != "" {
+		// a sensitivity self-test compiled a deliberate change in: what it covered is not evidence
+		// about /repo
+		dir = filepath.Join(verifDir, "build", "evidence-selftest")
+	}
+	os.MkdirAll(dir, 0o755)
 	b, _ := json.MarshalIndent(ev, "", " ")
-	if err := os.WriteFile(filepath.Join(verifDir, "evidence", prop+".json"), b, 0o644); err != nil {
+	if err := os.WriteFile(filepath.Join(dir, prop+".json"), b, 0o644); err != nil {
 		fatal2("writing evidence: %v", err)
 	}
 }
